@@ -8,4 +8,4 @@ def run(tier):
         "histories of <= 2 assignments x declared cell type x alias used for the write x operator/operand pool "
         "(incl. failing operands); after every step the cell is read through all aliases; distinct by source "
         "text; compared: result, every read tuple, final content of the cell (also after a failing update)",
-        ["write events are judged one by one (new = op(old, rhs), new in declared type); the order of writes to a cell is not re-validated"])
+        ["write events are judged one by one (new = op(old, rhs), new in declared type); the order of writes to a cell is not re-validated"], gen=3000)
